@@ -234,6 +234,14 @@ func (c *Chain) Fork() *Chain {
 	return &o
 }
 
+// ForkWithKeyOffset is Fork, but new validators created on the copy use different pool keys, so the
+// two chains build diverging deposit histories (different pubkeys at the same validator index).
+func (c *Chain) ForkWithKeyOffset(off uint64) *Chain {
+	o := c.Fork()
+	o.NextKey += off
+	return o
+}
+
 func (c *Chain) queueDeposits(st *refspec.State, plans []DepPlan, pr *prng) {
 	if len(plans) == 0 {
 		return
